@@ -243,7 +243,7 @@ Lemma clean_flag_wf l out : clean_flag l = Some out -> Forall flag_wf out.
 Proof.
   unfold clean_flag. destruct l as [|c0 l0]; [intros H; inversion H; constructor|].
   destruct (flag_collect _ _) as [m|]; [|discriminate].
-  pose proof (flag_emit_sound (mkVal (fun _ => mkStream (fun _ => 0%Z) 0%Z 0%Z 0 [] [] (fun _ => 1)) (fun _ _ => None)) m) as He.
+  pose proof (flag_emit_sound (mkVal (fun _ => mkStream (fun _ => 0%Z) 0%Z 0%Z 0 [] [] (fun _ => 1)) (fun _ _ => None) 0) m) as He.
   destruct (flag_emit m) as [o|]; [|discriminate]. intros H; inversion H; subst.
   apply isort_Forall. apply He.
 Qed.
